@@ -1,7 +1,7 @@
 """C18 - the LFU cache is a bounded least-frequently-used map.
 
 proof:           coq/theories/Lfu/{LfuModel,LfuSpec,LfuInv,LfuSpecProps,LfuProofs,
-                 LfuRtModel,LfuRtProofs}.v, Properties/C18.v
+                 LfuRtModel,LfuRtProofs,LfuHeapModel,LfuHeapProofs}.v, Properties/C18.v
 correspondence:  (a) exhaustive get/set sequences: per-step observations (get
                  output + the walked linked structure) folded into a checksum,
                  summed per first-op group, computed by the model inside Coq
@@ -10,6 +10,12 @@ correspondence:  (a) exhaustive get/set sequences: per-step observations (get
                  set(key, value=v) against the extension model LfuRtModel.v:
                  every output (content snapshot, not_found, raised) and the
                  walked structure with contents after every step.
+                 (e) the POINTER-LEVEL model (LfuHeapModel.v): the full pointer
+                 graph of the real CacheNode/FreqNode/LFUCache objects (pre, nxt,
+                 freq_node, cache_head, cache_tail, dict, freq_link_head; object
+                 ids renamed canonically in walk order) after EVERY step, folded
+                 into chained hashes, on the exhaustive sequences (per-group
+                 checksums) and on random traces (per-step hashes + final graph).
                  (c) the Coq SPEC (spec_sx, LfuSpec.v) evaluated on the same
                  random traces against the Python reference LFU: outputs and
                  final (key, value, uses) in order.
